@@ -2369,6 +2369,22 @@ func monitorReusePixels(line string, r *RNG, callsA, b []Call) (fails []Failure)
 			fails = nil // panics of the rasteriser are not this relation's business
 		}
 	}()
+	// golang.org/x/image/vector flattens curves into a number of lines that grows with the magnitude of the coordinates
+	// (a quadratic 1e19 pixels across: some 1e5 lines per curve and minutes per picture): pictures with operands beyond
+	// 1e6 are left to the rasteriser-call comparison above (sixth round: one such program made the quick tier take 160 s)
+	for _, cs := range [][]Call{callsA, b} {
+		for _, c := range cs {
+			for _, v := range c.F {
+				if !(math.Abs(float64(v)) <= 1e6) {
+					return nil
+				}
+			}
+			if c.Name == "reset" && !(math.Abs(float64(c.VB.MinX)) <= 1e6 && math.Abs(float64(c.VB.MaxX)) <= 1e6 && math.Abs(float64(c.VB.MinY)) <= 1e6 && math.Abs(float64(c.VB.MaxY)) <= 1e6 &&
+				float64(c.VB.MaxX)-float64(c.VB.MinX) >= 1e-3 && float64(c.VB.MaxY)-float64(c.VB.MinY) >= 1e-3) {
+				return nil
+			}
+		}
+	}
 	w, h := 8+r.Intn(40), 8+r.Intn(40)
 	bounds := image.Rect(0, 0, w, h)
 	sub := func() image.Rectangle {
